@@ -17,6 +17,8 @@
 (*    cells[c+1] = [k, op, ins, port, dir, o, oe] is cell c; a net is <<cell, bit>> (cell 0 bits 0,1    *)
 (*    are the constants, further bits of cell 0 the top-level inputs described by top_i);              *)
 (*    top_o = nets of the buffer's `i`.                                                                *)
+(* item.k = "design": several buffers on shared pads, see "netlists" below; raised = "" or the name of  *)
+(*    the exception raised while the netlist was built.                                                 *)
 EXTENDS IoBuf, Json, IOUtils, TLC, TLCExt
 
 Batch == JsonDeserialize(IOEnv.TRACE_FILE)
@@ -46,20 +48,32 @@ SimClause(s) ==
        ELSE ""
 
 (* ------------------------------ netlists ------------------------------ *)
-(* nets are evaluated symbolically as affine forms over GF(2): a set of input variables and a       *)
-(* constant; the variable "?" stands for anything that is not XOR / NOT / register / constant.       *)
+(* item.k = "net": one buffer (port = RunProg(prog)); item.k = "design": the buffers item.bufs on pads   *)
+(* of widths item.padw (IoBuf, "use sets"); tops[b] = [o, oe |-> <<start, width>> of buffer b's top-level *)
+(* inputs, i |-> nets of its `i`].                                                                        *)
+(* nets are evaluated symbolically as affine forms over GF(2): a set of input variables and a constant;  *)
+(* the variable "?" stands for anything that is not XOR / NOT / register / constant.                     *)
+IsDesign == T.k = "design"
+NB == IF IsDesign THEN Len(T.bufs) ELSE 1
+BP(b) == IF IsDesign THEN BufPort(T.bufs[b], T.padw) ELSE P
+BDir(b) == IF IsDesign THEN T.bufs[b].bdir ELSE T.bdir
+BCls(b) == IF IsDesign THEN (IF T.bufs[b].kind = "raw" THEN "se" ELSE T.cls) ELSE T.cls
+Tops == IF IsDesign THEN T.tops ELSE <<[o |-> T.top_i.o, oe |-> T.top_i.oe, i |-> T.top_o]>>
 Cells == T.cells
 CellOf(net) == Cells[net[1] + 1]
 Sym(vs, c) == [v |-> vs, c |-> c]
 XorS(a, b) == Sym((a.v \ b.v) \cup (b.v \ a.v), a.c # b.c)
 InRange(b, rng) == b >= rng[1] /\ b < rng[1] + rng[2]
+TopVar(bit) ==
+    IF \E b \in 1..NB : InRange(bit, Tops[b].o)
+    THEN LET b == CHOOSE b \in 1..NB : InRange(bit, Tops[b].o) IN <<"o", ToString(b), bit - Tops[b].o[1]>>
+    ELSE IF \E b \in 1..NB : InRange(bit, Tops[b].oe)
+    THEN LET b == CHOOSE b \in 1..NB : InRange(bit, Tops[b].oe) IN <<"oe", ToString(b), 0>>
+    ELSE <<"?", "", 0>>
 RECURSIVE Eval(_)
 Eval(net) ==
     IF net[1] = 0 THEN
-        IF net[2] < 2 THEN Sym({}, net[2] = 1)
-        ELSE IF InRange(net[2], T.top_i.o) THEN Sym({<<"o", "", net[2] - T.top_i.o[1]>>}, FALSE)
-        ELSE IF InRange(net[2], T.top_i.oe) THEN Sym({<<"oe", "", 0>>}, FALSE)
-        ELSE Sym({<<"?", "", 0>>}, FALSE)
+        IF net[2] < 2 THEN Sym({}, net[2] = 1) ELSE Sym({TopVar(net[2])}, FALSE)
     ELSE LET c == CellOf(net) IN
          CASE c.k = "op" /\ c.op = "^" -> XorS(Eval(c.ins[1][net[2] + 1]), Eval(c.ins[2][net[2] + 1]))
            [] c.k = "op" /\ c.op = "~" -> XorS(Eval(c.ins[1][net[2] + 1]), Sym({}, TRUE))
@@ -67,37 +81,45 @@ Eval(net) ==
            [] c.k = "iob" -> Sym({<<"pad", c.port[net[2] + 1][1], c.port[net[2] + 1][2]>>}, FALSE)
            [] OTHER -> Sym({<<"?", "", 0>>}, FALSE)
 
-Pad(side, k) == <<side \o ToString(P.src[k][1]), P.src[k][2]>>
+Pad(side, b, k) == <<side \o ToString(BP(b).src[k][1]), BP(b).src[k][2]>>
 Uses(pad) == {u \in UNION {{<<c, j>> : j \in 1..Len(Cells[c].port)} : c \in 1..Len(Cells)} :
                  Cells[u[1]].k = "iob" /\ Cells[u[1]].port[u[2]] = pad}
 TheUse(pad) == CHOOSE u \in Uses(pad) : TRUE
-Expected == {Pad("p", k) : k \in 1..W} \cup (IF T.cls = "diff" THEN {Pad("n", k) : k \in 1..W} ELSE {})
-Drives(u, k, c) ==          \* use u drives its pad with o[k] XOR c while oe
+Wires == UNION {{<<b, k>> : k \in 1..Width(BP(b))} : b \in 1..NB}
+Expected == {Pad("p", x[1], x[2]) : x \in Wires} \cup {Pad("n", x[1], x[2]) : x \in {y \in Wires : BCls(y[1]) = "diff"}}
+Drives(u, b, k, c) ==          \* use u drives its pad with o_b[k] XOR c while oe_b
     /\ Cells[u[1]].dir \in {"output", "inout"}
-    /\ Eval(Cells[u[1]].o[u[2]]) = Sym({<<"o", "", k - 1>>}, c)
-    /\ Eval(Cells[u[1]].oe) = Sym({<<"oe", "", 0>>}, FALSE)
+    /\ Eval(Cells[u[1]].o[u[2]]) = Sym({<<"o", ToString(b), k - 1>>}, c)
+    /\ Eval(Cells[u[1]].oe) = Sym({<<"oe", ToString(b), 0>>}, FALSE)
 NetClause ==
     IF \E c \in 1..Len(Cells) : Cells[c].k = "iob" /\ \E j \in 1..Len(Cells[c].port) : Cells[c].port[j] \notin Expected
     THEN "buffer_cell_on_a_pad_outside_the_port"
-    ELSE IF \E k \in 1..W : Cardinality(Uses(Pad("p", k))) # 1
+    ELSE IF \E x \in Wires : Cardinality(Uses(Pad("p", x[1], x[2]))) # 1
     THEN "port_bit_not_used_by_exactly_one_buffer_cell"
-    ELSE IF T.cls = "diff" /\ T.bdir # "i" /\ \E k \in 1..W : Cardinality(Uses(Pad("n", k))) # 1
+    ELSE IF \E x \in Wires : BCls(x[1]) = "diff" /\ BDir(x[1]) # "i" /\ Cardinality(Uses(Pad("n", x[1], x[2]))) # 1
     THEN "complement_bit_not_used_by_exactly_one_buffer_cell"
-    ELSE IF \E k \in 1..W : Cardinality(Uses(Pad("n", k))) > 1
+    ELSE IF \E x \in Wires : Cardinality(Uses(Pad("n", x[1], x[2]))) > 1
     THEN "complement_bit_used_more_than_once"
-    ELSE IF T.bdir # "i" /\ \E k \in 1..W : ~Drives(TheUse(Pad("p", k)), k, P.inv[k])
+    ELSE IF \E x \in Wires : BDir(x[1]) # "i" /\ ~Drives(TheUse(Pad("p", x[1], x[2])), x[1], x[2], BP(x[1]).inv[x[2]])
     THEN "pad_not_driven_with_o_xor_mask_under_oe"
-    ELSE IF T.bdir # "i" /\ T.cls = "diff" /\ \E k \in 1..W : ~Drives(TheUse(Pad("n", k)), k, ~P.inv[k])
+    ELSE IF \E x \in Wires : BDir(x[1]) # "i" /\ BCls(x[1]) = "diff"
+                               /\ ~Drives(TheUse(Pad("n", x[1], x[2])), x[1], x[2], ~BP(x[1]).inv[x[2]])
     THEN "complement_pad_not_driven_with_the_complement"
-    ELSE IF T.bdir = "i" /\ \E k \in 1..W : \E u \in Uses(Pad("p", k)) \cup Uses(Pad("n", k)) : Cells[u[1]].dir # "input"
+    ELSE IF \E x \in Wires : BDir(x[1]) = "i" /\ \E u \in Uses(Pad("p", x[1], x[2])) \cup Uses(Pad("n", x[1], x[2])) :
+                                                      Cells[u[1]].dir # "input"
     THEN "input_buffer_drives_a_pad"
-    ELSE IF T.bdir # "o" /\ \E k \in 1..W : Eval(T.top_o[k]) # Sym({<<"pad", Pad("p", k)[1], Pad("p", k)[2]>>}, P.inv[k])
+    ELSE IF \E x \in Wires : BDir(x[1]) # "o" /\ Eval(Tops[x[1]].i[x[2]]) #
+                                   Sym({<<"pad", Pad("p", x[1], x[2])[1], Pad("p", x[1], x[2])[2]>>}, BP(x[1]).inv[x[2]])
     THEN "i_is_not_pad_xor_mask"
     ELSE ""
 
 (* ------------------------------ verdict machine ------------------------------ *)
 AcceptClause ==
-    IF RP.err # "" \/ Len(RP.stack) # 1 THEN "bad_item"
+    IF IsDesign THEN
+        IF Accepted(T.bufs, T.padw) /\ T.raised # "" THEN "design_without_double_use_refused"
+        ELSE IF ~Accepted(T.bufs, T.padw) /\ T.raised # "DriverConflict" THEN "double_use_of_a_port_bit_not_refused_with_DriverConflict"
+        ELSE ""
+    ELSE IF RP.err # "" \/ Len(RP.stack) # 1 THEN "bad_item"
     ELSE IF Accepts(T.bdir, P.dir) /\ T.raised # "" THEN "accepted_combination_raised"
     ELSE IF ~Accepts(T.bdir, P.dir) /\ T.raised # "ValueError" THEN "rejected_combination_did_not_raise_ValueError"
     ELSE ""
@@ -112,7 +134,7 @@ Start0 ==
     /\ LET c == AcceptClause IN
        IF c # "" THEN Rej(0, c)
        ELSE IF T.raised # "" THEN Acc(0)
-       ELSE IF T.k = "net" THEN (LET d == NetClause IN IF d # "" THEN Rej(0, d) ELSE Acc(0))
+       ELSE IF T.k \in {"net", "design"} THEN (LET d == NetClause IN IF d # "" THEN Rej(0, d) ELSE Acc(0))
        ELSE i' = 1 /\ r' = FFInit(W) /\ UNCHANGED <<tid, verdict>>
 
 Step ==
